@@ -340,6 +340,26 @@ def _re_compile(ip, args, kw, fr):
     return SV('pattern', py=p)
 
 
+@builtin(re.fullmatch)
+def _re_fullmatch(ip, args, kw, fr):
+    """re.fullmatch(<constant pattern>, s[, flags]) for its truth value (pyvc/regex.py: the pattern is parsed by
+    CPython's regex parser and translated node by node; untranslatable patterns leave the caller undecided)."""
+    from . import regex as RX
+    p = _const_str(args[0])
+    flags = 0
+    fl = args[2] if len(args) > 2 else kw.get('flags')
+    if fl is not None:
+        if fl.k != 'const' or not isinstance(fl.py, int):
+            raise Unsupported('re.fullmatch with non-constant flags')
+        flags = int(fl.py)
+    try:
+        e = RX.fullmatch(p, ip.as_str(args[1]), flags)
+    except RX.Untranslatable as ex:
+        raise Unsupported(f're.fullmatch pattern outside the translatable subset: {ex}')
+    ip.st.notes.append('re.fullmatch: constant pattern translated to an SMT regular expression from CPython\'s own parse tree (pyvc/regex.py)')
+    return SV('match', e)
+
+
 @builtin(print)
 def _print(ip, args, kw, fr):
     return NONE
